@@ -113,3 +113,45 @@ def dead_code(all_pairs: bool = True, version: int = 8) -> Iterator[str]:
         for t in DEAD_TAILS:
             for s in segs:
                 yield header + h + "\n" + s + "\n" + t + "\n"
+
+
+SUB_TOKENS = ("bnz La", "bnz Lb", "b La", "b Lb", "retsub", "callsub g", "La:", "Lb:")
+
+
+def sub_bodies(max_n: int = 6, version: int = 8) -> Iterator[str]:
+    """G1S - every control-flow shape of a subroutine body of up to max_n tokens over
+    {bnz L, b L, retsub, callsub g, L:} with two labels, called once from a fixed main program and
+    closed by a final retsub; g is a second subroutine.  (`bnz L` stands for `int 1; bnz L`.)"""
+    header = f"#pragma version {version}\ncallsub f\nint 1\nreturn\nf:\n"
+    footer = "retsub\ng:\nretsub\n"
+
+    def rec(pos: int, n: int, toks: List[str], defined: int, seen: int, referenced: int) -> Iterator[str]:
+        if pos == n:
+            if referenced & ~defined == 0 and defined & ~referenced == 0:
+                body = "\n".join(t.replace("bnz ", "int 1\nbnz ") for t in toks)
+                yield header + body + ("\n" if body else "") + footer
+            return
+        for t in SUB_TOKENS:
+            lab = 0 if "La" in t else (1 if "Lb" in t else None)
+            s = seen
+            if lab is not None:
+                if lab > s:
+                    continue
+                if lab == s:
+                    s += 1
+            if t.endswith(":"):
+                if defined >> lab & 1:  # type: ignore
+                    continue
+                if toks and toks[-1].endswith(":"):
+                    continue  # two labels in a row add no shape
+                toks.append(t)
+                yield from rec(pos + 1, n, toks, defined | (1 << lab), s, referenced)  # type: ignore
+                toks.pop()
+            else:
+                r = referenced | (1 << lab) if lab is not None else referenced
+                toks.append(t)
+                yield from rec(pos + 1, n, toks, defined, s, r)
+                toks.pop()
+
+    for n in range(0, max_n + 1):
+        yield from rec(0, n, [], 0, 0, 0)
